@@ -3,7 +3,7 @@
 //! `ProbeA<T>` / `ProbeB<T>` are user-defined color types (as a caller of
 //! palette could write them): `repr(C)`, three components, `ArrayCast`, with
 //! hand-written conversions that count down and panic with the harness marker
-//! on the k-th call. They are instantiated with `Tracked`, a heap-owning
+//! on the k-th call. They are instantiated with `Tracked`, a
 //! component whose every construction, clone and drop is recorded, so that a
 //! double drop, a drop of something never constructed, or a dead value left
 //! reachable in a buffer the caller still owns is visible.
@@ -38,8 +38,12 @@ fn reg<R>(f: impl FnOnce(&mut Registry) -> R) -> R {
     REG.with(|r| f(&mut r.borrow_mut()))
 }
 
+/// The component does **not** own heap memory on purpose: a double drop must end up as a
+/// recorded error of the registry (and so as a replayable violation), not as a
+/// `free(): double free detected` abort of the simulator process. Under Miri the same
+/// registry check runs, and the surrounding buffer (Vec / Box) is still real heap memory.
 pub struct Tracked {
-    id: Box<u64>,
+    id: u64,
     pub val: u32,
 }
 
@@ -52,10 +56,10 @@ impl Tracked {
             r.live.insert(id);
             id
         });
-        Tracked { id: Box::new(id), val }
+        Tracked { id, val }
     }
     fn id(&self) -> u64 {
-        *self.id
+        self.id
     }
 }
 
@@ -67,7 +71,7 @@ impl Clone for Tracked {
 
 impl Drop for Tracked {
     fn drop(&mut self) {
-        let id = *self.id;
+        let id = self.id;
         reg(|r| {
             r.dropped += 1;
             if !r.live.remove(&id) {
